@@ -203,6 +203,35 @@ func parkedLibrary(dump string) (bool, string) {
 // prints, not off the clock. watchdog is a generous wall-clock limit whose
 // firing is inconclusive.
 func RunProcess(bin string, args []string, env []string, cpuSeconds int, watchdog time.Duration) ProcResult {
+	return RunProcessOpt(bin, args, env, cpuSeconds, watchdog, false)
+}
+
+// procAnyRunnable: some thread of the process is running, waiting for a
+// processor (state R) or in uninterruptible sleep (D) right now.
+func procAnyRunnable(pid int) bool {
+	tasks, err := os.ReadDir(fmt.Sprintf("/proc/%d/task", pid))
+	if err != nil {
+		return false
+	}
+	for _, t := range tasks {
+		b, err := os.ReadFile(fmt.Sprintf("/proc/%d/task/%s/stat", pid, t.Name()))
+		if err != nil {
+			continue
+		}
+		s := string(b)
+		if i := strings.LastIndexByte(s, ')'); i >= 0 && i+2 < len(s) {
+			if st := s[i+2]; st == 'R' || st == 'D' {
+				return true
+			}
+		}
+	}
+	return false
+}
+
+// RunProcessOpt: with noIdle the zero-progress rule is off (the process is a
+// tracer such as strace, which is idle whenever the program it traces
+// computes); only the CPU limit and the wall-clock watchdog apply.
+func RunProcessOpt(bin string, args []string, env []string, cpuSeconds int, watchdog time.Duration, noIdle bool) ProcResult {
 	var cmd *exec.Cmd
 	if cpuSeconds > 0 {
 		sh := append([]string{"-c", fmt.Sprintf(`ulimit -t %d; exec "$0" "$@"`, cpuSeconds), bin}, args...)
@@ -223,6 +252,7 @@ func RunProcess(bin string, args []string, env []string, cpuSeconds int, watchdo
 	const idleSamples = 24 // x 250 ms = 6 s without a single clock tick of CPU
 	last, idle := int64(-1), 0
 	var window []int64
+	var runnable []bool
 	start := time.Now()
 	res := ProcResult{}
 	for {
@@ -257,13 +287,27 @@ func RunProcess(bin string, args []string, env []string, cpuSeconds int, watchdo
 		// program may still have a ticker that redraws a progress bar, or a
 		// goroutine that polls every millisecond for results that cannot come.
 		// It only decides when to ask for the goroutine dump, not the verdict.
+		// A healthy process that gets no processor on a loaded machine looks
+		// the same by CPU time; its threads are runnable though (state R),
+		// those of a blocked program sleep. Samples with a runnable thread
+		// are counted: more than half of the window means starved, not stuck.
 		window = append(window, t)
+		runnable = append(runnable, procAnyRunnable(cmd.Process.Pid))
 		if len(window) > idleSamples+1 {
 			window = window[1:]
+			runnable = runnable[1:]
 		}
 		idle = 0
-		if len(window) == idleSamples+1 && t-window[0] <= 30 {
-			idle = idleSamples
+		if !noIdle && len(window) == idleSamples+1 && t-window[0] <= 30 {
+			nr := 0
+			for _, x := range runnable {
+				if x {
+					nr++
+				}
+			}
+			if nr*2 <= len(runnable) {
+				idle = idleSamples
+			}
 		}
 		_ = last
 		if idle >= idleSamples {
